@@ -3,6 +3,7 @@
 From Coq Require Import List NArith Arith.
 From SudachiVerif Require Witness.C01Pipeline.
 From SudachiVerif Require Witness.C01EndToEnd.   (* non-vacuity of C01_tokenizer_end_to_end *)   (* non-vacuity of the end-to-end pipeline theorem *)
+From SudachiVerif Require Witness.C01Rows.       (* non-vacuity of C01_tokenizer_end_to_end_from_rows / _machine *)
 From SudachiVerif Require Import Model.Buffer Proofs.BufferProofs Properties.C01 Witness.C08.
 Import ListNotations.
 Open Scope nat_scope.
